@@ -87,6 +87,8 @@ def run_pbt_shard(spec):
     if spec.get("extra", {}).get("dump"):
         dump = os.path.join(spec["scratch"], spec["name"] + ".dump")
         cmd += ["--dump", dump]
+    if spec.get("extra", {}).get("trail"):
+        cmd += ["--trail", spec["extra"]["trail"]]
     if spec.get("extra", {}).get("valgrind"):
         cmd = ["valgrind", "-q", "--error-exitcode=98", "--exit-on-first-error=yes", "--track-origins=no", "--leak-check=no"] + cmd
     res = run_shard_generic(spec, cmd, env, out, marker)
@@ -179,12 +181,12 @@ def register_engine(name, fn):
 
 
 # ----------------------------------------------------------------- replay / minimise
-def replay_case(replay_bin, text, scratch, tag="r"):
+def replay_case(replay_bin, text, scratch, tag="r", timeout=60):
     p = os.path.join(scratch, "replay_%s_%d.case" % (tag, os.getpid()))
     with open(p, "w") as f:
         f.write(text)
     try:
-        r = subprocess.run([replay_bin, p], env=san_env({"VERIF_SCRATCH": scratch}), capture_output=True, timeout=60)
+        r = subprocess.run([replay_bin, p], env=san_env({"VERIF_SCRATCH": scratch}), capture_output=True, timeout=timeout)
         return r.returncode, (r.stdout.decode("utf-8", "replace") + r.stderr.decode("utf-8", "replace"))
     except subprocess.TimeoutExpired:
         return None, "timeout"
@@ -226,6 +228,77 @@ def ddmin_ops(replay_bin, text, scratch, budget=400):
         else:
             n = max(2, n - 1)
     return "\n".join(head + ops) + "\n"
+
+
+CASE_SEP = "%%%% next case\n"
+
+
+def ddmin_cases(replay_bin, cases, scratch, budget=200):
+    """delta debugging over the earlier cases of a sequence whose last case fails only after them"""
+    last = cases[-1]
+    prefix = list(cases[:-1])
+    runs = 0
+
+    def still_fails(cand):
+        nonlocal runs
+        runs += 1
+        rc, _ = replay_case(replay_bin, CASE_SEP.join(cand + [last]), scratch, "ddc", timeout=600)
+        return rc is not None and failing(rc)  # a time-out is never a failure
+
+    n = 2
+    while len(prefix) >= 1 and runs < budget:
+        chunk = max(1, len(prefix) // n)
+        reduced = False
+        i = 0
+        while i < len(prefix) and runs < budget:
+            cand = prefix[:i] + prefix[i + chunk:]
+            if still_fails(cand):
+                prefix = cand
+                reduced = True
+            else:
+                i += chunk
+        if not reduced:
+            if chunk == 1:
+                break
+            n = min(len(prefix), n * 2)
+        else:
+            n = max(2, n - 1)
+    return prefix + [last]
+
+
+def history_repro(spec, replay_bin, scratch):
+    """A shard failed on a case that passes when it runs alone in a fresh process: the failure may need what the process
+    executed before (state kept between calls).  The shard is run again with the same parameters, recording every case up
+    to the first failing one; that sequence is replayed in one process and minimised.  Returns the text of a multi-case
+    replay file that fails 3 times out of 3, or None."""
+    if spec.get("engine") != "pbt":
+        return None
+    s2 = dict(spec)
+    s2["name"] = spec["name"] + "_trail"
+    trail = os.path.join(scratch, s2["name"] + ".trail")
+    s2["extra"] = dict(spec.get("extra", {}) or {})
+    s2["extra"]["trail"] = trail
+    s2["extra"].pop("dump", None)
+    run_pbt_shard(s2)
+    try:
+        text = open(trail, errors="replace").read()
+    except OSError:
+        return None
+    cases = [c for c in text.split(CASE_SEP) if c.strip()]
+    if not cases or len(cases) > 200000:
+        return None
+    whole = CASE_SEP.join(cases)
+    for _ in range(3):
+        rc, _o = replay_case(replay_bin, whole, scratch, "trail", timeout=900)
+        if rc is None or not failing(rc):
+            return None
+    small = ddmin_cases(replay_bin, cases, scratch)
+    text = CASE_SEP.join(small)
+    for _ in range(3):
+        rc, _o = replay_case(replay_bin, text, scratch, "trail", timeout=600)
+        if rc is None or not failing(rc):
+            return whole
+    return text
 
 
 def sanitizer_summary(output):
@@ -341,7 +414,7 @@ def do_replay(pid, path):
         return 2
     scratch = make_scratch()
     try:
-        rc, out = replay_case(bins[("replay", executor, config)], text, scratch)
+        rc, out = replay_case(bins[("replay", executor, config)], text, scratch, timeout=900 if CASE_SEP in text else 60)
     finally:
         shutil.rmtree(scratch, ignore_errors=True)
     print(out)
@@ -452,6 +525,7 @@ def _run_check(pid, p, tier, seed, jobs, findings, scratch, t0, scale=1.0):
             notes.append("custom job %s broken: %s" % (j.get("label", ji), r["broken"]))
 
     # ---- merge
+    spec_by_name = {sp["name"]: sp for sp in specs}
     evaluations = corpus_run
     hashes = set()
     tags = {}
@@ -504,7 +578,14 @@ def _run_check(pid, p, tier, seed, jobs, findings, scratch, t0, scale=1.0):
                 violations.append(dict(case=case, message=st["fail_message"], key=st["fail_key"], executor=exe, config=config, crashed=False,
                                        rc_params=r.get("rc_params"), first_case=st.get("first_fail_case")))
             else:
-                broken.append("shard %s reported a failure that replays only %d/3 times (harness not deterministic?)\n%s" % (r["name"], ok_repro, st["fail_message"]))
+                seq = history_repro(spec_by_name.get(r["name"], {}), replay_bin, scratch) if ok_repro == 0 else None
+                if seq:
+                    ncases = seq.count(CASE_SEP) + 1
+                    violations.append(dict(case=seq, message="fails only after earlier cases executed in the same process (state kept between calls); %d case(s) in the replay file, "
+                                           "the last one fails, alone it passes\n%s" % (ncases, st["fail_message"]), key=st["fail_key"] + "|after-earlier-cases", executor=exe, config=config,
+                                           crashed=False, rc_params=r.get("rc_params")))
+                else:
+                    broken.append("shard %s reported a failure that replays only %d/3 times (harness not deterministic?)\n%s" % (r["name"], ok_repro, st["fail_message"]))
         elif st and st.get("finished") and r["returncode"] == 0:
             pass
         elif "violation" in r:
@@ -525,6 +606,17 @@ def _run_check(pid, p, tier, seed, jobs, findings, scratch, t0, scale=1.0):
                     n_fail += 1
                     out = o
             if n_fail < 3:
+                seq = history_repro(spec_by_name.get(r["name"], {}), replay_bin, scratch) if n_fail == 0 else None
+                if seq:
+                    rc, out = replay_case(replay_bin, seq, scratch)
+                    summ = sanitizer_summary(out)
+                    cls = ""
+                    for l in seq.split(CASE_SEP)[-1].splitlines():
+                        if l.startswith("class "):
+                            cls = l.split(None, 1)[1]
+                    violations.append(dict(case=seq, message="process aborted, only after earlier cases executed in the same process (state kept between calls): %s\n%s" % (summ, out[-3000:]),
+                                           key="%s|abort|%s|after-earlier-cases" % (cls, _abort_kind(summ)), executor=exe, config=config, crashed=True))
+                    continue
                 broken.append("shard %s aborted but the case in flight replays clean %d/3 times\n%s" % (r["name"], 3 - n_fail, r.get("stderr", "")[-3000:]))
                 continue
             small = ddmin_ops(replay_bin, case, scratch)
